@@ -583,7 +583,80 @@ class E2ECase:
             await w.close()
 
 
+def run_anon_out(ctx: Ctx | None, case: dict) -> None:
+    """
+    Data of an overlay that asked for anonymity, sent through the originator's TunnelEndpoint: some packets before a
+    circuit is ready (they wait in the endpoint's queue), some after. Every packet that is carried at all leaves the
+    exit byte-for-byte identical and exactly once; once a ready circuit has been used, nothing is left behind.
+    """
+    c = case
+    info = {"nt": False, "cls": "anon_out"}
+
+    def fail(clause, site, msg):
+        raise Violation(clause, "anon_out:" + site, msg, case)
+
+    async def main(loop):
+        from ipv8.community import Community
+        hops = c["hops"]
+        w = World(loop, hops + 1, tunnel_endpoint_at=(0,), dispatcher=c.get("stack"))
+        try:
+            origin = w.nodes[0]
+            anon = origin.add(type("AnonOverlay", (Community,), {"community_id": OTHER_PREFIX[2:]}), anonymize=True)
+            origin.endpoint.set_tunnel_community(origin.overlay, hops)
+            dest = ("5.5.5.5", 5555)
+            import random
+            random.seed(c["seed"])
+            sent = []
+
+            def send(i: int) -> None:
+                pkt = OTHER_PREFIX + bytes([i]) + bt_payload(c["size"] + i, (c["seed"] + i) & 0xFF)
+                sent.append(pkt)
+                anon.endpoint.send(dest, pkt)
+            for i in range(c["early"]):
+                send(i)
+                await asyncio.sleep(c["gap"])
+            await asyncio.sleep(2.0)
+
+            def has_ready() -> bool:
+                return any(x.state == "READY" and len(x.hops) == hops for x in origin.overlay.circuits.values())
+            flushed_upto = -1          # index of the last packet sent while a ready circuit existed
+            for i in range(c["early"], c["early"] + c["late"]):
+                if has_ready():
+                    flushed_upto = i
+                send(i)
+                await asyncio.sleep(c["gap"])
+            await asyncio.sleep(1.0)
+            emitted = [d for t in loop.transports for (d, a) in t.sent if tuple(a) == dest]
+            for d in emitted:
+                if d not in sent:
+                    fail("I3", "foreign", f"the exit emitted {d[:24].hex()}.. which the anonymised overlay never sent")
+            for pkt in sent:
+                if emitted.count(pkt) > 1:
+                    fail("I1", "duplicate", f"packet #{pkt[22]} of {len(sent)} sent through the TunnelEndpoint left the exit "
+                                            f"{emitted.count(pkt)} times")
+            if flushed_upto >= 0:
+                # a send that found a ready circuit carries itself and flushes whatever was waiting (the queue holds 100)
+                missing = [pkt[22] for pkt in sent[:flushed_upto + 1] if pkt not in emitted]
+                if missing:
+                    fail("I1", "lost", f"packets {missing} of {len(sent)} sent through the TunnelEndpoint ({c['early']} before a "
+                                       f"circuit was ready; packet {flushed_upto} was sent into a ready circuit) never left "
+                                       f"the exit")
+                info["nt"] = flushed_upto > 0
+            raw = [f for f in w.net.log if f.origin is origin.raw_endpoint and f.data[:22] == OTHER_PREFIX]
+            if raw:
+                fail("I2", "raw", "a packet of the anonymised overlay left the originator's own socket")
+        finally:
+            await w.close()
+    try:
+        vloop.run(main)
+    finally:
+        if ctx is not None:
+            ctx.case(case, info["nt"], cls=info["cls"], sample=case)
+
+
 def run_case(ctx: Ctx | None, case: dict) -> None:
+    if case.get("kind") == "anon_out":
+        return run_anon_out(ctx, case)
     if case.get("kind", "").startswith("e2e"):
         runner = E2ECase(case)
         info = vloop.run(runner.main)
@@ -642,6 +715,12 @@ def _e2e_strategy():
 def _random_shard(ctx: Ctx, shard: int, nshards: int, n: int) -> None:
     hyp_run(ctx, "cases", _strategy(), lambda c: run_case(ctx, c), n)
     hyp_run(ctx, "e2e_cases", _e2e_strategy(), lambda c: run_case(ctx, c), max(8, n // 6))
+    from hypothesis import strategies as st
+    anon = st.fixed_dictionaries({"kind": st.just("anon_out"), "hops": st.integers(1, 3), "seed": st.integers(0, 1000),
+                                  "early": st.integers(0, 4), "late": st.integers(1, 3),
+                                  "gap": st.sampled_from([0.0, 0.01, 0.3]), "size": st.sampled_from([2, 30, 300]),
+                                  "stack": st.sampled_from([None, "v4", "dual"])})
+    hyp_run(ctx, "anon_out", anon, lambda c: run_case(ctx, c), max(6, n // 10))
 
 
 def _sweep_shard(ctx: Ctx, shard: int, nshards: int, hops: int, size: int, step: int) -> None:
